@@ -535,6 +535,8 @@ def evaluate__value_comparison_operators(self: XPathToken, context: ta.ContextTy
     elif any(isinstance(x, XPathFunction) for x in operands):
         raise self.error('FOTY0013', "cannot compare a function item")
 
+    operands = [self.with_implicit_timezone(x, context) for x in operands]
+
     cls0, cls1 = type(operands[0]), type(operands[1])
     if cls0 is cls1 and cls0 is not Duration:
         pass
